@@ -1178,7 +1178,24 @@ func propC12(r *Run, w *World) {
 		seen := map[string]bool{}
 		for _, p := range ps {
 			ret := p.Ret()
-			if ret == nil || !isNilConst(ret.Results[0]) {
+			if ret == nil {
+				continue
+			}
+			// success: returns the nil constant, or a value this very path found to be nil
+			// (`err = step(); ...; return err` after every step succeeded)
+			forwarded := false
+			if c, isCall := ret.Results[0].(*ssa.Call); isCall {
+				// the result of the last step is handed on untested: the path on which every
+				// earlier step succeeded and the last one decides
+				var last ssa.Instruction
+				for _, e := range p.Events {
+					if e.Kind == EvCall {
+						last = e.Instr
+					}
+				}
+				forwarded = last == ssa.Instruction(c) && !p.HasLit(Term(c)+" != nil")
+			}
+			if !isNilConst(ret.Results[0]) && !p.HasLit(Term(ret.Results[0])+" == nil") && !forwarded {
 				continue // error exits
 			}
 			// must be the all-success path: no `!= nil` literal
@@ -1235,6 +1252,17 @@ func propC12(r *Run, w *World) {
 			ret := p.Ret()
 			if ret == nil || isNilConst(ret.Results[0]) {
 				continue
+			}
+			if c, isCall := ret.Results[0].(*ssa.Call); isCall && !p.HasLit(Term(c)+" != nil") {
+				var last ssa.Instruction
+				for _, e := range p.Events {
+					if e.Kind == EvCall {
+						last = e.Instr
+					}
+				}
+				if last == ssa.Instruction(c) {
+					continue // the last step's result handed on untested: its error, if any, is what is returned
+				}
 			}
 			r.Check(HoldsAt(ret.Block(), Term(ret.Results[0])+" != nil") || p.HasLit(Term(ret.Results[0])+" != nil"), "enrichData error exit "+Term(ret.Results[0]), ret.Pos(), "", "an error exit of enrichData returns something other than the failed decoder's error")
 		}
